@@ -143,11 +143,26 @@ func runRace(toks []string) (string, string) {
 			}
 		}
 		run(func(g int) {
+			var kept [][]gowarc.WriteResponse // what Write returned is the caller's, also later
+			defer func() {
+				n := 0
+				for _, rs := range kept {
+					for _, x := range rs {
+						n += len(x.FileName) + int(x.FileOffset) + int(x.BytesWritten)
+					}
+				}
+				_ = n
+			}()
 			for i, r := range recs[g] {
 				if custom && g == 1 {
 					_ = w.String() // describing the writer is part of using it
 				}
-				w.Write(r)
+				kept = append(kept, w.Write(r))
+				for _, rs := range kept {
+					for _, x := range rs {
+						_ = x.FileName
+					}
+				}
 				if wl != "shared-writer" && i%2 == 1 && g == 0 {
 					w.Rotate()
 				}
